@@ -175,6 +175,25 @@ func (e *p1env) apply(d p1Damage, rng *rand.Rand) {
 			}
 		case "append":
 			os.WriteFile(p, append(append([]byte(nil), f.Data...), byte(1+rng.Intn(255))), 0644)
+		case "flip-tail":
+			b := append([]byte(nil), f.Data...)
+			if len(b) == 0 {
+				b = []byte{2}
+			} else {
+				b[len(b)-1] ^= 0x01
+			}
+			os.WriteFile(p, b, 0644)
+		case "cut-16k":
+			// boundary of the first-16-KiB hash: keep exactly 16384 bytes
+			// (files that are shorter lose their last byte instead)
+			switch {
+			case len(f.Data) > 16384:
+				os.WriteFile(p, f.Data[:16384], 0644)
+			case len(f.Data) > 0:
+				os.WriteFile(p, f.Data[:len(f.Data)-1], 0644)
+			default:
+				os.WriteFile(p, []byte{5}, 0644)
+			}
 		default:
 			os.WriteFile(p, scen.Garbage(rng, 1+rng.Intn(50)), 0644)
 		}
@@ -284,7 +303,7 @@ func (c *c04) Run(cs core.Case) core.Result {
 	rng := rand.New(rand.NewSource(p.Seed))
 	var nf, nv int
 	exh := false
-	kinds := []string{"delete", "flip", "truncate", "append", "replace"}
+	kinds := []string{"delete", "flip", "truncate", "append", "replace", "flip-tail", "cut-16k"}
 	switch {
 	case len(p.Kind) > 4 && p.Kind[:4] == "exh:":
 		fmt.Sscanf(p.Kind, "exh:%d:%d", &nf, &nv)
